@@ -18,9 +18,23 @@ What is EXPLORED / TRUSTED rather than proved: that numpy's `Generator.choice(a,
 `rng.random(size)` (assumption, re-checked on numpy alone at the start of every run); that PCG64 doubles are uniform
 and independent (trusted; a chi-square frequency / pairwise-independence test over many real draws is run as a
 supporting TEST and reported under coverage.explored, it is not the decision procedure).
+
+Beyond single calls: (a) the error must be a function of (model, code, p, generator state) ONLY - the same
+configurations are evaluated in fresh interpreters that differ in PYTHONHASHSEED (cross_process_cases) and inside call
+histories in which the caller modifies, in place, the arrays earlier calls returned (history_cases: value checks against
+the model, np.shares_memory freshness, held arrays unchanged; a failing history is re-run on its own in a fresh
+interpreter so that the reported input stands alone); (b) the rare branches of tiny / near-1 probabilities are hit on
+purpose by pre-advancing the generator to a uniform inside the rare interval (rare_cases, exact); (c) a statistical
+monitor with a sound false-alarm bound (exact two-sided binomial test, alarm below 1e-9 per test) counts the flips
+over millions of real syndrome bits at q = 7e-6 and 1 - 7e-6 (extreme_flip_test).  A mismatch of the exact-stream
+comparison alone says only that the code consumes the generator differently from the documented rng.choice scheme - a
+different but correct sampler would mismatch as well - so it is never reported as a failing input by itself: search()
+turns it into one by evaluating the property on the real code (fresh-interpreter probe, the failing history on its own,
+zero-probability / frequency checks, the extreme-q binomial test).
 """
 import json
 import math
+import os
 from fractions import Fraction
 
 import numpy as np
@@ -37,7 +51,18 @@ RULE = ('every IID model of qecsim.models.generic (depolarizing, bit-flip, phase
         'uniforms consumed compared exactly with the model applied to a twin generator\'s uniforms; recorded step errors '
         'and measurement flips of run_once / run_once_ftp / run / run_ftp (T in 1..5, q in {None, 0, 1e-12, 0.3, 1}, up '
         'to 3 runs from one seed) predicted from ONE stream; searchsorted primitive on random sorted cdfs with ties and '
-        'uniforms exactly on thresholds; float cdf vs exact cdf within 2^-48. non-trivial = a case in which at least one '
+        'uniforms exactly on thresholds; float cdf vs exact cdf within 2^-48. RARE BRANCHES on purpose: p / q in {7e-6, '
+        '2^-17, 2^-18, 3e-6, 1e-5, 1e-4, 1.5*2^-16} and 1 minus these, the twin stream scanned for a uniform inside the '
+        'rare interval and the generator pre-advanced so that a chosen qubit / syndrome bit of a chosen step consumes '
+        'it (compared exactly). FRESH INTERPRETERS: every model x p (+0.3) x a code x a seed and random run_once_ftp '
+        'configurations evaluated in one new interpreter per PYTHONHASHSEED in {1,2,3} and in this process, results '
+        'identical. CALL HISTORIES around generate: 2-3 models (pure ones always) x 1-2 codes of 4..8 qubits x 2 '
+        'probabilities, 10-40 calls, configurations repeated, between the calls the caller modifies returned errors in '
+        'place (zero / flip / xor with another held one / fill) and converts Pauli strings itself: every call compared '
+        'with the model from the bits it had when returned, zero-probability Paulis, same state => same error, '
+        'results share no memory with arrays the caller holds, held arrays unchanged. EXTREME q statistically: exact '
+        'binomial test (alarm below 1e-9) of the flip count over 3.6e6 real syndrome bits at q = 7e-6 / 1-7e-6 (thorough: '
+        'also 2^-18, 1-2^-18). non-trivial = a case in which at least one '
         'uniform is consumed and the distribution is not a point mass on I (p > 0) or, for runs, q > 0 or T > 1')
 
 DEN = 2 ** 53
@@ -326,16 +351,18 @@ def gen_case(ctx, mspec, cspec, p, seed, pre):
         return
     # -- correspondence
     cdf = float_cdf(dist)
-    us = stream_wire(u)
-    line = 'c17 gen {} {} {} {} {}'.format(n, ratlist(dist), ratlist(cdf), us, pre)
+    off = max(0, pre - 5) if pre > 64 else 0      # far pre-advanced generators: send a window of the stream
+    us = stream_wire(u[off:])
+    line = 'c17 gen {} {} {} {} {}'.format(n, ratlist(dist), ratlist(cdf), us, pre - off)
     b = bits(err)
     post = make_post_gen(ctx, [Fraction(float(x)) for x in u[pre:pre + n]], [Fraction(float(c)) for c in cdf])
     nontrivial = p > 0 and n > 0
-    ctx.case(line, 'ok {} {} {}'.format(b, b, consumed if consumed >= 0 else 'unknown'), nontrivial=nontrivial,
+    ctx.case(line, 'ok {} {} {}'.format(b, b, consumed - off if consumed >= 0 else 'unknown'), nontrivial=nontrivial,
              meta=dict(inp, kind='gen'), post=post)
-    ctx.case('c17 pauli {} {} {} {}'.format(n, ratlist(cdf), us, pre), 'ok ' + letters, nontrivial=nontrivial,
+    ctx.case('c17 pauli {} {} {} {}'.format(n, ratlist(cdf), us, pre - off), 'ok ' + letters, nontrivial=nontrivial,
              meta=dict(inp, kind='gen'))
-    ctx.count('model', mspec[0]); ctx.count('p', p); ctx.count('n', n); ctx.count('pre', pre)
+    ctx.count('model', mspec[0]); ctx.count('p', p); ctx.count('n', n); ctx.count('pre', pre if pre <= 64 else '>64')
+    return letters
 
 
 def pauli_letters(err, n):
@@ -355,8 +382,9 @@ def make_post_gen(ctx, us, cdf):
     return post
 
 
-def run_case(ctx, mspec, cspec, p, q, T, R, seed, api):
-    """api in once_ftp / ftp / once / run"""
+def run_case(ctx, mspec, cspec, p, q, T, R, seed, api, pre=0):
+    """api in once_ftp / ftp / once / run; pre = number of doubles the generator handed to run_once(_ftp) has
+    already produced (once_ftp / once only)"""
     from qecsim import app
     RecDec, RecEM = make_recorders()
     em = make_model(mspec); code = make_code(cspec)
@@ -369,13 +397,17 @@ def run_case(ctx, mspec, cspec, p, q, T, R, seed, api):
         ctx.count('skipped', 'invalid-dist(C16)'); return
     dec = RecDec(); rem = RecEM(em)
     inp = {'model': mspec, 'code': cspec, 'p': p, 'q': q, 'T': T, 'R': R, 'seed': seed, 'api': api}
+    rng = np.random.default_rng(seed)
+    if pre:
+        assert api in ('once_ftp', 'once')
+        rng.random(pre); inp['pre'] = pre
     with core.TimeLimit(120):
         if api == 'once_ftp':
-            app.run_once_ftp(code, T, rem, dec, p, q, np.random.default_rng(seed))
+            app.run_once_ftp(code, T, rem, dec, p, q, rng)
         elif api == 'ftp':
             app.run_ftp(code, T, rem, dec, p, q, max_runs=R, random_seed=seed)
         elif api == 'once':
-            app.run_once(code, rem, dec, p, np.random.default_rng(seed))
+            app.run_once(code, rem, dec, p, rng)
         else:
             app.run(code, rem, dec, p, max_runs=R, random_seed=seed)
     qq_expected = (0.0 if T == 1 else p) if q is None else q
@@ -383,7 +415,7 @@ def run_case(ctx, mspec, cspec, p, q, T, R, seed, api):
         qq_expected = 0.0
     twin = np.random.default_rng(seed)
     total = R * T * (n + m) + 3
-    u = twin.random(total)
+    u = twin.random(pre + total)[pre:]
     consumed = locate(u, rem.rng.random(), 0)
     # -- direct monitors
     for c in dec.calls:
@@ -456,6 +488,456 @@ def cdf_cases(ctx, dists):
         ctx.case('c17 cdf ' + ratlist(dist), 'within-2^-48', nontrivial=True, post=post)
 
 
+
+# ------------------------------------------------------------------------------------------ rare branches, exactly
+
+def rare_cases(ctx):
+    """probabilities so small (or so close to 1) that the rare branch is practically never taken by a random seed:
+    the twin stream is scanned for a uniform that falls into the rare interval and the generator is pre-advanced so
+    that exactly this uniform is consumed by a chosen qubit / syndrome bit; compared exactly with the model"""
+    r = ctx.rng
+    small_codes = [('basic.FiveQubitCode', []), ('basic.SteaneCode', []), ('toric.ToricCode', [3, 4]),
+                   ('planar.PlanarCode', [3, 5]), ('rotatedplanar.RotatedPlanarCode', [3, 3]),
+                   ('color.Color666Code', [3])]
+    for it in range(ctx.scale(16, 120)):
+        tiny = r.choice([7e-6, 2.0 ** -17, 2.0 ** -18, 3e-6, 1e-5, 1e-4, 2.0 ** -16 * 1.5])
+        near_one = r.random() < 0.5
+        v = 1.0 - tiny if near_one else tiny
+        seed = r.randrange(2 ** 32)
+        cspec = r.choice(small_codes); code = make_code(cspec)
+        n = code.n_k_d[0]; m = code.stabilizers.shape[0]
+        K = int(min(12 / tiny, 4e6))
+        u = np.random.default_rng(seed).random(K)
+        if r.random() < 0.6:
+            # measurement flips: flip iff searchsorted(cdf, u, 'right') == 1 iff u >= cdf[0]
+            thr = float_cdf((1 - v, v))[0]
+            T = r.choice([1, 2, 3]); t = r.randrange(T); i = r.randrange(m)
+            pos = t * (n + m) + n + i
+            idx = np.nonzero(u < thr)[0] if near_one else np.nonzero(u >= thr)[0]
+            idx = idx[(idx >= pos) & (idx < K - T * (n + m) - 8)]
+            if not len(idx):
+                ctx.count('rare', 'none-in-stream'); continue
+            j = int(idx[r.randrange(len(idx))])
+            mspec = r.choice([('DepolarizingErrorModel', []), ('BitFlipErrorModel', []),
+                              ('BiasedDepolarizingErrorModel', [10, 'Z'])])
+            run_case(ctx, mspec, cspec, r.choice([0.0, 0.1, 0.5]), v, T, 1, seed, 'once_ftp', pre=j - pos)
+            ctx.count('rare', 'no-flip-at-q-near-1' if near_one else 'flip-at-tiny-q')
+        else:
+            mspec = r.choice([('DepolarizingErrorModel', []), ('BitFlipErrorModel', []), ('PhaseFlipErrorModel', []),
+                              ('BitPhaseFlipErrorModel', []), ('BiasedDepolarizingErrorModel', [3, 'X']),
+                              ('BiasedYXErrorModel', [3])])
+            dist = make_model(mspec).probability_distribution(v)
+            if not dist_valid(dist):
+                continue
+            thr = float_cdf(dist)[0]
+            i = r.randrange(n)
+            idx = np.nonzero(u < thr)[0] if near_one else np.nonzero(u >= thr)[0]
+            idx = idx[(idx >= i) & (idx < K - n - 8)]
+            if not len(idx):
+                ctx.count('rare', 'none-in-stream'); continue
+            j = int(idx[r.randrange(len(idx))])
+            letters = gen_case(ctx, mspec, cspec, v, seed, j - i)
+            ctx.count('rare', 'identity-at-p-near-1' if near_one else 'non-identity-at-tiny-p')
+            if letters and ((letters[i] == 'I') != near_one):
+                ctx.monitor_fail('qubit {} consumed the uniform {!r} which lies {} the identity threshold {!r} of {} at '
+                                 'p={!r} but the generated Pauli is {}'.format(
+                                     i, float(u[j]), 'below' if near_one else 'at or above', float(thr), mspec, v,
+                                     letters[i]),
+                                 {'model': mspec, 'code': cspec, 'p': v, 'seed': seed, 'pre': j - i, 'qubit': i},
+                                 key='rare-branch-qubit')
+
+
+# ------------------------------------------------------------------------------------------ extreme q, statistically
+
+def binom_two_sided(k, N, q):
+    """exact two-sided binomial p-value 2*min(P(K<=k), P(K>=k)) (<= 1): under K ~ Bin(N, q) the probability that it
+    is <= a is at most a, so alarming below a has false-alarm probability <= a"""
+    from scipy.stats import binom
+    return float(min(1.0, 2 * min(binom.cdf(k, N, q), binom.sf(k - 1, N, q))))
+
+
+EXTREME_CODE = ('planar.PlanarCode', [7, 7])
+EXTREME_T = 500
+
+
+def extreme_flip_test(q, seed, lam=25.0):
+    """real run_once_ftp calls only: N >= lam / min(q, 1-q) syndrome bits drawn with measurement error probability q;
+    returns (two-sided exact binomial p-value, N, flips, runs)"""
+    from qecsim import app
+    from qecsim.model import DecoderFTP, DecodeResult
+
+    class Count(DecoderFTP):
+        def __init__(self):
+            self.nb = 0; self.ones = 0; self.bad = False
+
+        def decode_ftp(self, code, time_steps, syndrome, **kw):
+            a = np.asarray(kw['step_measurement_errors'])
+            self.bad = self.bad or not np.isin(a, (0, 1)).all()
+            self.nb += a.size; self.ones += int(a.sum())
+            return DecodeResult(success=True)
+
+        label = 'c17-count'
+
+    code = make_code(EXTREME_CODE); em = make_model(('BitFlipErrorModel', []))
+    m = code.stabilizers.shape[0]
+    runs = int(math.ceil(lam / min(q, 1 - q) / (m * EXTREME_T)))
+    dec = Count(); rng = np.random.default_rng(seed)
+    for _ in range(runs):
+        app.run_once_ftp(code, EXTREME_T, em, dec, 0.0, q, rng)
+    if dec.bad:
+        return 0.0, dec.nb, dec.ones, runs
+    return binom_two_sided(dec.ones, dec.nb, q), dec.nb, dec.ones, runs
+
+
+def extreme_flip_failure(q, seed, lam=25.0):
+    pv, nb, ones, runs = extreme_flip_test(q, seed, lam)
+    if pv < P_CHI:
+        return {'what': 'measurement_error_probability={!r}: {} of {} syndrome bits flipped over {} run_once_ftp calls '
+                        '({} steps each, one generator default_rng({})); expected {:.1f} {}; exact two-sided binomial '
+                        'p-value {:.3g} (alarm below {:g})'.format(
+                            q, ones, nb, runs, EXTREME_T, seed, nb * min(q, 1 - q),
+                            'flips' if q < 0.5 else 'bits left unflipped', pv, P_CHI),
+                'model': ['BitFlipErrorModel', []], 'code': list(EXTREME_CODE), 'p': 0.0, 'q': q, 'T': EXTREME_T,
+                'runs': runs, 'seed': seed, 'flips': ones, 'bits': nb, 'kind': 'extreme-q', 'key': 'extreme-q-flips'}
+    return None
+
+
+# ------------------------------------------------------------------------------------------ other interpreter, same state
+
+_CHILD = r"""
+import json, os, sys
+sys.path.insert(0, sys.argv[1])
+import qecsim
+from qv.props import c17
+cfgs = json.load(sys.stdin)
+print(json.dumps({'qecsim': os.path.realpath(os.path.dirname(qecsim.__file__)),
+                  'hashseed': os.environ.get('PYTHONHASHSEED'), 'res': [c17.eval_cfg(c) for c in cfgs]}))
+"""
+
+
+def eval_cfg(c):
+    """the real code on one configuration; the result as text (also run in fresh interpreters)"""
+    import logging
+    logging.disable(logging.WARNING)
+    try:
+        em = make_model(tuple(c['model'])); code = make_code(c['code'])
+        rng = np.random.default_rng(c['seed'])
+        if c.get('pre'):
+            rng.random(c['pre'])
+        if c['kind'] == 'gen':
+            e = np.asarray(em.generate(code, c['p'], rng))
+            n = code.n_k_d[0]
+            return pauli_letters(e, n) if e.shape == (2 * n,) else 'shape{}'.format(e.shape)
+        from qecsim import app
+        RecDec, _ = make_recorders()
+        dec = RecDec()
+        app.run_once_ftp(code, c['T'], em, dec, c['p'], c['q'], rng)
+        return show_runs(dec.calls)
+    except Exception as ex:
+        return 'raised:' + type(ex).__name__
+
+
+def run_children(cfgs, hashseeds):
+    """eval_cfg of every configuration in one fresh interpreter per PYTHONHASHSEED value"""
+    import subprocess
+    import sys
+    import qecsim
+    here = os.path.realpath(os.path.dirname(qecsim.__file__))
+    harness = os.path.abspath(os.path.join(os.path.dirname(__file__), '..', '..'))
+    out = {}
+    for hs in hashseeds:
+        env = dict(os.environ, PYTHONHASHSEED=str(hs))
+        r = subprocess.run([sys.executable, '-c', _CHILD, harness], input=json.dumps(cfgs), env=env,
+                           stdout=subprocess.PIPE, stderr=subprocess.PIPE, text=True, timeout=900)
+        try:
+            body = json.loads(r.stdout.strip().splitlines()[-1])
+        except (ValueError, IndexError):
+            raise core.Infra('child interpreter (PYTHONHASHSEED={}) failed: rc={} {}'.format(
+                hs, r.returncode, r.stderr[-400:]))
+        if body['qecsim'] != here or body['hashseed'] != str(hs) or len(body['res']) != len(cfgs):
+            raise core.Infra('child interpreter bound to {} (PYTHONHASHSEED {}), expected {}'.format(
+                body['qecsim'], body['hashseed'], here))
+        out[str(hs)] = body['res']
+    return out
+
+
+def cross_process_failure(cfgs, hashseeds):
+    """first configuration on which two fresh interpreters disagree, as a failing input of the clause 'the same
+    supplied generator state reproduces the same error'"""
+    res = run_children(cfgs, hashseeds)
+    ks = [str(h) for h in hashseeds]
+    for i, c in enumerate(cfgs):
+        for k in ks[1:]:
+            if res[k][i] != res[ks[0]][i]:
+                what = ('generate(code, p, default_rng({}){})'.format(c['seed'], ' advanced by {} doubles'.format(
+                    c['pre']) if c.get('pre') else '') if c['kind'] == 'gen' else
+                        'run_once_ftp(code, T={}, ..., p, q={!r}, default_rng({})) (recorded step errors | flips)'.format(
+                            c['T'], c['q'], c['seed']))
+                return dict(c, what='the same generator state gives different errors in two fresh interpreter '
+                                    'processes: {} of {} at p={!r} on {} returned {} under PYTHONHASHSEED={} and {} '
+                                    'under PYTHONHASHSEED={}'.format(what, c['model'], c['p'], c['code'],
+                                                                     res[ks[0]][i][:80], ks[0], res[k][i][:80], k),
+                            PYTHONHASHSEED=[ks[0], k], results=[res[ks[0]][i][:400], res[k][i][:400]],
+                            key='same-state-different-interpreter')
+    return None
+
+
+HASHSEEDS = (1, 2, 3)
+
+
+def cross_process_cfgs(ctx):
+    r = ctx.rng
+    quick = ctx.quick()
+    codes = [('basic.FiveQubitCode', []), ('basic.SteaneCode', []), ('planar.PlanarCode', [3, 5]),
+             ('toric.ToricCode', [3, 4]), ('rotatedplanar.RotatedPlanarCode', [7, 9]), ('color.Color666Code', [7]),
+             ('planar.PlanarCode', [10, 10])]
+    cfgs = []
+    for mspec in model_specs():
+        for p in PS + [0.3]:
+            try:
+                if not dist_valid(make_model(mspec).probability_distribution(p)):
+                    continue
+            except Exception:
+                continue
+            for _ in range(1 if quick else 3):
+                cfgs.append({'kind': 'gen', 'model': list(mspec), 'code': list(r.choice(codes)), 'p': p,
+                             'seed': r.randrange(2 ** 32), 'pre': r.choice([0, 0, 3])})
+    for _ in range(ctx.scale(30, 200)):
+        mspec = r.choice(model_specs())
+        p = r.choice(PS)
+        try:
+            if not dist_valid(make_model(mspec).probability_distribution(p)):
+                continue
+        except Exception:
+            continue
+        cfgs.append({'kind': 'run', 'model': list(mspec), 'code': list(r.choice(codes[:4])), 'p': p,
+                     'q': r.choice([None, 0.0, 0.3, 1.0, 1e-12]), 'T': r.choice([1, 2, 3]),
+                     'seed': r.randrange(2 ** 32), 'pre': 0})
+    return cfgs
+
+
+def cross_process_cases(ctx):
+    cfgs = cross_process_cfgs(ctx)
+    res = run_children(cfgs, HASHSEEDS)
+    here = [eval_cfg(c) for c in cfgs]
+    ks = [str(h) for h in HASHSEEDS]
+    n_zero = 0
+    for i, c in enumerate(cfgs):
+        dist = [float(x) for x in make_model(tuple(c['model'])).probability_distribution(c['p'])]
+        n_zero += any(d == 0 for d in dist)
+        vals = [res[k][i] for k in ks]
+        if len(set(vals)) > 1:
+            f = cross_process_failure([c], HASHSEEDS) or {}
+            ctx.monitor_fail(f.get('what', 'fresh interpreters disagree: {}'.format(vals)[:300]),
+                             dict(c, PYTHONHASHSEED=ks, results=[v[:400] for v in vals]),
+                             key='same-state-different-interpreter')
+            break
+        if here[i] != vals[0]:
+            ctx.monitor_fail('the same generator state gives {} in this (long-running) process and {} in a fresh '
+                             'interpreter'.format(here[i][:80], vals[0][:80]),
+                             dict(c, results=[here[i][:400], vals[0][:400]]), key='same-state-different-process')
+            break
+    ctx.explored['fresh_interpreters'] = {
+        'evaluations': len(cfgs) * len(ks), 'configurations': len(cfgs), 'with_zero_probability_entry': n_zero,
+        'PYTHONHASHSEED': ks, 'exhaustive': False,
+        'rule': 'every IID model x p in {0, 1e-12, 0.1, 0.3, 0.5, 0.9, 1} x a code x a seed (generate) and random '
+                'run_once_ftp configurations, evaluated by the real code in one fresh interpreter per PYTHONHASHSEED '
+                'value and in this process: all results identical (the error is a function of model, code, p and '
+                'generator state only)'}
+    ctx.count('cross-process', 'configs={}'.format(len(cfgs)))
+
+
+# ------------------------------------------------------------------------------------------ caller-owned results
+
+HIST_CODES = [('basic.FiveQubitCode', []), ('basic.SteaneCode', []), ('toric.ToricCode', [2, 2]),
+              ('planar.PlanarCode', [2, 2]), ('rotatedtoric.RotatedToricCode', [2, 2]), ('color.Color666Code', [3])]
+HIST_MUT = ['none', 'xor-held', 'flip-all', 'flip-one', 'zero', 'fill-1', 'xor-held', 'flip-all']
+
+
+def gen_history(r):
+    """a call history around generate(): few small codes / models / probabilities (so the same Pauli strings recur),
+    some configurations (model, code, p, seed, pre) repeated later; between the calls the caller modifies returned
+    errors in place (they are the caller's arrays) and converts Pauli strings of its own"""
+    pure = [('BitFlipErrorModel', []), ('PhaseFlipErrorModel', []), ('BitPhaseFlipErrorModel', []),
+            ('BiasedYXErrorModel', [0]), ('CenterSliceErrorModel', [[0, 0, 1], 1.0])]
+    other = [('DepolarizingErrorModel', []), ('BiasedDepolarizingErrorModel', [10, 'Z']), ('BiasedYXErrorModel', [3]),
+             ('CenterSliceErrorModel', [[0.5, 0.5, 0], 0.25])]
+    models = r.sample(pure, 2) + r.sample(other, r.choice([0, 1]))
+    codes = r.sample(HIST_CODES, r.choice([1, 1, 2]))
+    ps = r.sample([0.0, 1e-12, 0.05, 0.1, 0.3, 1.0], 2)
+    steps = []; cfgs = []
+    for _ in range(r.randint(10, 40)):
+        if cfgs and r.random() < 0.3:
+            c = r.choice(cfgs)
+        else:
+            c = ['gen', list(r.choice(models)), list(r.choice(codes)), r.choice(ps), r.randrange(2 ** 32),
+                 r.choice([0, 0, 2])]
+            cfgs.append(c)
+        steps.append(list(c))
+        if r.random() < 0.7:
+            steps.append(['mut', r.choice(HIST_MUT), r.choice(['last', 'last', 'any']), r.randrange(1 << 16)])
+        if r.random() < 0.1:
+            steps.append(['tobsf', r.choice(['identity', 'last']), r.choice(HIST_MUT), r.randrange(1 << 16)])
+    return steps
+
+
+def _mutate(how, arr, held, salt):
+    if how == 'zero':
+        arr ^= arr
+    elif how == 'flip-all':
+        arr ^= 1
+    elif how == 'flip-one' and arr.size:
+        arr[salt % arr.size] ^= 1
+    elif how == 'xor-held':
+        same = [h for h in held if h is not arr and h.shape == arr.shape]
+        if same:
+            arr ^= same[salt % len(same)]
+        else:
+            arr ^= 1
+    elif how == 'fill-1':
+        arr[:] = 1
+
+
+def exec_history(steps):
+    """run the history on the real code.  returns (records of the generate calls, failure or None); a record =
+    (step index, config, bits at return time).  The failure is the PROPERTY evaluated on the real outputs: shape,
+    zero-probability Paulis, same generator state => same error - whatever the caller did to earlier results."""
+    from qecsim import paulitools as pt
+    held = []; snaps = []; last = None
+    first = {}; recs = []
+    value_fail = alias_fail = None
+
+    def note_alias(a, si, who):
+        nonlocal alias_fail
+        if alias_fail is None and any(h.size and a.size and np.shares_memory(h, a) for h in held):
+            alias_fail = {'what': '{} (step {}) returned an array that shares memory with an array returned earlier, '
+                                  'which the caller owns and may modify'.format(who, si), 'step': si,
+                          'key': 'generate-result-aliased'}
+
+    for si, st in enumerate(steps):
+        if st[0] == 'gen':
+            _, mspec, cspec, p, seed, pre = st
+            em = make_model(tuple(mspec)); code = make_code(cspec)
+            n = code.n_k_d[0]
+            dist = [float(x) for x in em.probability_distribution(p)]
+            if not dist_valid(dist):
+                continue
+            rng = np.random.default_rng(seed)
+            if pre:
+                rng.random(pre)
+            e = em.generate(code, p, rng)
+            a = np.asarray(e)
+            cfg = json.dumps(st)
+            fail = None
+            if a.shape != (2 * n,) or not np.isin(a, (0, 1)).all():
+                fail = 'generated error is not a binary vector of length 2n: {}'.format(str(a)[:80])
+                b = 'bad-shape'
+            else:
+                b = bits(a); letters = pauli_letters(a, n)
+                for k, ch in enumerate('IXYZ'):
+                    if dist[k] == 0 and ch in letters:
+                        fail = ('Pauli {} has probability 0 under {} at p={!r} (distribution {}) but generate returned '
+                                '{}'.format(ch, em.label, p, dist, letters))
+                        break
+                if fail is None and cfg in first and first[cfg][1] != b:
+                    fail = ('the same generator state (default_rng({}) advanced by {}) gave {} at step {} and gives {} '
+                            'now ({} at p={!r} on {})'.format(seed, pre, first[cfg][2], first[cfg][0], letters,
+                                                               em.label, p, cspec))
+                first.setdefault(cfg, (si, b, letters))
+            recs.append((si, st, b))
+            if fail and value_fail is None:
+                value_fail = {'what': 'step {}: {}; before, the caller had modified arrays returned by earlier calls in '
+                                      'place'.format(si, fail), 'step': si, 'key': 'generate-depends-on-caller-history'}
+            if any(h.tolist() != sn for h, sn in zip(held, snaps)) and value_fail is None:
+                value_fail = {'what': 'step {}: generate changed an array returned by an earlier call'.format(si),
+                              'step': si, 'key': 'generate-depends-on-caller-history'}
+            if isinstance(e, np.ndarray) and a.ndim == 1:
+                note_alias(e, si, 'generate')
+                if e.flags.writeable and np.issubdtype(e.dtype, np.integer):
+                    held.append(e); snaps.append(e.tolist()); last = len(held) - 1
+        elif st[0] == 'mut' and held:
+            _, how, which, salt = st
+            i = last if (which == 'last' and last is not None) else salt % len(held)
+            _mutate(how, held[i], held, salt)
+            snaps[:] = [h.tolist() for h in held]
+        elif st[0] == 'tobsf':
+            _, what, how, salt = st
+            if what == 'last' and last is not None and held[last].size % 2 == 0:
+                n = held[last].size // 2
+                sstr = pauli_letters(np.asarray(snaps[last]) % 2, n)
+            else:
+                sstr = 'I' * (held[last].size // 2 if last is not None else 5)
+            a = pt.pauli_to_bsf(sstr)
+            if isinstance(a, np.ndarray) and a.flags.writeable:
+                note_alias(a, si, 'paulitools.pauli_to_bsf')
+                held.append(a)
+                _mutate(how, a, held, salt)
+                snaps[:] = [h.tolist() for h in held]
+    return recs, (value_fail or alias_fail)
+
+
+_CHILD_HIST = r"""
+import json, os, sys
+sys.path.insert(0, sys.argv[1])
+import qecsim
+from qv.props import c17
+recs, fail = c17.exec_history(json.load(sys.stdin))
+print(json.dumps({'qecsim': os.path.realpath(os.path.dirname(qecsim.__file__)), 'fail': fail}))
+"""
+
+
+def standalone_failure(steps):
+    """the history on its own, in a fresh interpreter: its failure or None"""
+    import subprocess
+    import sys
+    import qecsim
+    harness = os.path.abspath(os.path.join(os.path.dirname(__file__), '..', '..'))
+    r = subprocess.run([sys.executable, '-c', _CHILD_HIST, harness], input=json.dumps(steps), stdout=subprocess.PIPE,
+                       stderr=subprocess.PIPE, text=True, timeout=300)
+    try:
+        out = json.loads(r.stdout.strip().splitlines()[-1])
+    except (ValueError, IndexError):
+        return None
+    if out.get('qecsim') != os.path.realpath(os.path.dirname(qecsim.__file__)):
+        return None
+    return out.get('fail')
+
+
+def history_cases(ctx):
+    r = ctx.rng
+    n_alone = 0
+    for it in range(ctx.scale(60, 600)):
+        steps = gen_history(r)
+        recs, fail = exec_history(steps)
+        # every call of the history against the model (twin generator), from the bits it had when it was returned
+        for si, st, b in recs:
+            _, mspec, cspec, p, seed, pre = st
+            em = make_model(tuple(mspec)); n = make_code(cspec).n_k_d[0]
+            dist = em.probability_distribution(p); cdf = float_cdf(dist)
+            u = np.random.default_rng(seed).random(pre + n)
+            post = make_post_gen(ctx, [Fraction(float(x)) for x in u[pre:pre + n]], [Fraction(float(c)) for c in cdf])
+            ctx.case('c17 gen {} {} {} {} {}'.format(n, ratlist(dist), ratlist(cdf), stream_wire(u), pre),
+                     'ok {} {} {}'.format(b, b, pre + n), nontrivial=(p > 0), post=post,
+                     meta={'kind': 'history', 'model': mspec, 'code': cspec, 'p': p, 'seed': seed, 'pre': pre,
+                           'history': steps, 'step': si})
+        ctx.count('history-len', len(recs))
+        ctx.count('history-mutations', sum(1 for st in steps if st[0] == 'mut' and st[1] != 'none'))
+        ctx.count('history-repeated-strings', len(recs) - len(set((json.dumps(st[2]), b) for _, st, b in recs)))
+        if fail:
+            alone = None; ran = False
+            if n_alone < 6:
+                n_alone += 1; ran = True
+                alone = standalone_failure(steps)
+            rec = dict(alone or fail, history=steps,
+                       fresh_interpreter=('reproduced' if alone else 'not re-run' if not ran else
+                                          'fails only after the earlier histories of this run'))
+            key = rec.pop('key', None)
+            if alone:
+                ctx.counterexamples.insert(0, {'what': rec['what'], 'input': rec, 'key': key})
+            else:
+                ctx.monitor_fail(rec['what'], rec, key=key)
+
+
 # ------------------------------------------------------------------------------------------ run
 
 def run(ctx):
@@ -482,6 +964,9 @@ def run(ctx):
                     gen_case(ctx, mspec, cspec, p, r.randrange(2 ** 32), r.choice([0, 0, 1, 5, 64]))
     cdf_cases(ctx, sorted(set(dists)))
 
+    # A2. the same (model, code, p, generator state) in fresh interpreters (different PYTHONHASHSEED) and here
+    cross_process_cases(ctx)
+
     # B. whole runs: recorded step errors and measurement flips from one stream
     small = [c for c in cspecs if make_code(c).n_k_d[0] <= (60 if quick else 200)]
     for it in range(ctx.scale(600, 4000)):
@@ -492,6 +977,9 @@ def run(ctx):
         if api in ('once', 'run'):
             T = 1
         run_case(ctx, mspec, cspec, p, q, T, R, r.randrange(2 ** 32), api)
+
+    # B2. rare branches (tiny / near-1 probabilities) hit on purpose by pre-advancing the generator
+    rare_cases(ctx)
 
     # C. primitives
     idx_cases(ctx)
@@ -530,6 +1018,24 @@ def run(ctx):
             ctx.monitor_fail('TEST: empirical measurement-flip frequency {}/{} inconsistent with q={} (p-value {:.3g})'
                              .format(ones, nb, q, pv), {'q': q, 'T': T, 'p': p, 'seeds': seeds[:5]},
                              key='chi-square-flips')
+    # D2. extreme measurement error probabilities: exact binomial test over millions of real syndrome bits
+    ext = []
+    for q in ([r.choice([7e-6, 1 - 7e-6])] if quick else [7e-6, 1 - 7e-6, 2.0 ** -18, 1 - 2.0 ** -18]):
+        sd = r.randrange(2 ** 32)
+        f = extreme_flip_failure(q, sd)
+        ext.append(q)
+        if f:
+            key = f.pop('key'); what = f.pop('what')
+            ctx.monitor_fail('TEST: ' + what, f, key=key)
+    ctx.explored['extreme_q_flip_test'] = {
+        'evaluations': len(ext), 'q': ext, 'alarm_below': P_CHI, 'exhaustive': False,
+        'rule': 'TEST, supporting only: run_once_ftp on {} with {} steps per run and as many runs as give 25 expected '
+                'flips (q tiny) / unflipped bits (q close to 1); the flip count must pass the exact two-sided binomial '
+                'test at {:g} (false-alarm probability per test at most that)'.format(EXTREME_CODE, EXTREME_T, P_CHI)}
+
+    # E. call histories: the caller modifies returned errors in place, the same Pauli strings recur
+    history_cases(ctx)
+
     ctx.explored['chi_square_support_test'] = {
         'evaluations': n_tests, 'draws': n_draws, 'min_p_value': min_p, 'alarm_below': P_CHI, 'exhaustive': False,
         'rule': 'TEST, supporting only: Pearson chi-square of single-qubit Pauli counts and of disjoint adjacent-pair '
@@ -617,13 +1123,100 @@ def family_probe(meta):
     return _probe_cache[key]
 
 
+_search_state = {'fresh': 0, 'extreme': None}
+
+
+def rule_deviation(m):
+    """diagnostic for a mismatching run case (NOT a failing input of the property: a correct sampler that consumes the
+    generator differently deviates too): the first recorded bit that differs from what the documented scheme
+    (rng.choice over the twin stream: Pauli by inverse cdf, flip iff u >= 1-q) yields, with the uniform it compares"""
+    try:
+        op = m['op'].split(); imp = m['impl'].split(); mod = m['model'].split()
+        if op[:2] != ['c17', 'run'] or imp[0] != 'ok' or mod[0] != 'ok':
+            return None
+        T, n, ms = int(op[3]), int(op[4]), int(op[5])
+        den, ks = op[11].split(':')
+        ks = [int(k) for k in ks.split(',')] if ks != '_' else []
+        qq = Fraction(mod[1][2:])
+        step_len = n + (ms if qq != 0 else 0)
+        ri = imp[2].split(';'); rm = mod[2].split(';')
+        for r_, (a, b) in enumerate(zip(ri, rm)):
+            for t, (sa, sb) in enumerate(zip(a.split(','), b.split(','))):
+                if sa == sb or '|' not in sa or '|' not in sb:
+                    continue
+                (ea, fa), (eb, fb) = sa.split('|'), sb.split('|')
+                base = (r_ * T + t) * step_len
+                if ea != eb and len(ea) == len(eb) == 2 * n:
+                    i = next(i for i in range(n) if (ea[i], ea[n + i]) != (eb[i], eb[n + i]))
+                    return ('run {} step {} qubit {}: implementation x|z bits {}{}, documented scheme {}{} from uniform '
+                            '#{} = {!r}'.format(r_, t, i, ea[i], ea[n + i], eb[i], eb[n + i], base + i,
+                                                ks[base + i] / int(den)))
+                if fa != fb and len(fa) == len(fb):
+                    i = next(i for i in range(len(fa)) if fa[i] != fb[i])
+                    return ('run {} step {} syndrome bit {}: implementation flip={}, documented scheme flip={} (flip iff '
+                            'u >= 1-q with q={!r}, uniform #{} = {!r})'.format(
+                                r_, t, i, fa[i], fb[i], float(qq), base + n + i, ks[base + n + i] / int(den)))
+    except Exception:
+        return None
+    return None
+
+
+def fresh_interpreter_probe(meta):
+    """the mismatching configuration (and the pure models on its code with its seed) in fresh interpreters with
+    different PYTHONHASHSEED: a disagreement is a failing input of 'same generator state => same error' that does not
+    depend on anything this process did before.  At most three probes per process."""
+    if _search_state['fresh'] >= 3:
+        return None
+    _search_state['fresh'] += 1
+    seed = int(meta.get('seed', 777)); pre = int(meta.get('pre', 0) or 0)
+    cfgs = []
+    if meta.get('kind') in ('gen', 'history'):
+        cfgs.append({'kind': 'gen', 'model': list(meta['model']), 'code': list(meta['code']), 'p': meta['p'],
+                     'seed': seed, 'pre': pre})
+    elif meta.get('kind') == 'run':
+        cfgs.append({'kind': 'run', 'model': list(meta['model']), 'code': list(meta['code']), 'p': meta['p'],
+                     'q': meta.get('q'), 'T': int(meta.get('T', 1)), 'seed': seed, 'pre': pre})
+    for mspec in (('BitFlipErrorModel', []), ('PhaseFlipErrorModel', []), ('BitPhaseFlipErrorModel', []),
+                  ('BiasedYXErrorModel', [0]), ('DepolarizingErrorModel', [])):
+        for p in (0.1, 1.0):
+            cfgs.append({'kind': 'gen', 'model': list(mspec), 'code': list(meta['code']), 'p': p, 'seed': seed,
+                         'pre': 0})
+    return cross_process_failure(cfgs, HASHSEEDS)
+
+
+def extreme_q_probe():
+    """once per process: tiny / near-1 measurement error probabilities over millions of real syndrome bits"""
+    if _search_state['extreme'] is None:
+        found = False
+        for q, sd in ((7e-6, 20240), (1 - 7e-6, 20241)):
+            found = extreme_flip_failure(q, sd)
+            if found:
+                break
+        _search_state['extreme'] = found or False
+    return _search_state['extreme'] or None
+
+
 def search(m):
     meta = m.get('meta') or {}
+    if meta.get('kind') == 'history':
+        f = standalone_failure(meta['history'])
+        if f:
+            return dict(f, history=meta['history'], fresh_interpreter='reproduced')
     if 'model' not in meta:
         return None
+    if meta.get('kind') == 'extreme-q':
+        return extreme_flip_failure(meta['q'], int(meta['seed']))
+    found = fresh_interpreter_probe(meta)
+    if found:
+        return found
     found = property_check(meta)
     if found:
         return found
+    if meta.get('kind') == 'run':
+        found = extreme_q_probe()
+        if found:
+            dev = rule_deviation(m) if 'op' in m else None
+            return dict(found, exact_stream_diagnostic=dev) if dev else found
     found = family_probe(meta)
     if found:
         return found
@@ -642,6 +1235,11 @@ def replay(ctx, path):
         ce = v.get('counterexample') or {}
         inp = ce.get('input') if isinstance(ce.get('input'), dict) else ce
         meta = None
+        if isinstance(inp, dict) and 'history' in inp:
+            f = standalone_failure(inp['history'])
+            print('replay history ({} steps) in a fresh interpreter ->'.format(len(inp['history'])), f)
+            bad += bool(f)
+            continue
         if isinstance(inp, dict) and 'model' in inp and 'code' in inp and 'p' in inp:
             meta = dict(inp)
             meta.setdefault('kind', 'run' if ('q' in inp or 'T' in inp) else 'gen')
